@@ -182,6 +182,29 @@ def run(ctx):
             chk.ok("R07.e", fi.qualname, fi.loc(), f"closure of {len(closure)} functions is write-free on shared objects")
     chk.floor("R07.e", chk.count("R07.e"), 4, "filters")
 
+    # ---------------------------------------------------------------- R07.g
+    chk.rule("R07.g", "a filter reasons about the list it is given: it does not consult the dispatcher's own ready/available-operation queries")
+    FORBIDDEN = ("raw_ready_operations", "available_operations", "current_time", "available_machines", "available_jobs")
+    for key, fi in sorted(all_filters.items(), key=lambda kv: kv[1].qualname):
+        hit = None
+        for f, _rc, _via in ctx.effects.closure(fi, fi.cls, max_depth=3):
+            if f.cls is not None:
+                continue  # dispatcher methods themselves are not filter code
+            for n in own_nodes(f.node):
+                if isinstance(n, ast.Call) and isinstance(n.func, ast.Attribute) and n.func.attr in FORBIDDEN and hit is None:
+                    hit = (f, n)
+        if hit is None:
+            chk.ok("R07.g", fi.qualname, fi.loc(), "uses only its `operations` argument and the dispatcher's tracking state")
+        else:
+            f, n = hit
+            chk.violation(
+                "R07.g", fi, n,
+                f"{fi.name} consults `{ast.unparse(n)[:60]}`: its reference (e.g. the current time) is taken from operations that "
+                "are not in the list it filters, so on a sub-list - a later stage of a composite - the kept set no longer "
+                "contains the earliest operation of *that* list and the result can be empty for a non-empty input",
+                loc=f.loc(n),
+            )
+
     # ---------------------------------------------------------------- R07.f
     chk.rule("R07.f", "an entry stored under machine m of a per-machine table built inside `for m in <op>.machines` is computed from m (start/end times are per machine)")
     n_tab = 0
